@@ -102,12 +102,25 @@ func arrObserve() []*model.N {
 	return out
 }
 
+// arrStarts: initial states with shared ancestry (the first element of a history selects one).
+const arrStartCount = 3
+
 func arrProgram(hist []int, ops []arrOp) []*model.N {
 	prog := []*model.N{
 		model.Fun("poke", []string{"z", "v"}, model.ExprS(model.IAsg(model.Id("z"), model.Num(0), model.Id("v")))),
-		model.Var("a", model.Arr(model.Num(1), model.Num(2), model.Num(3))),
-		model.Var("b", model.Arr()),
-		model.Var("c", model.Id("a")),
+	}
+	start := 0
+	if len(hist) > 0 {
+		start = hist[0]
+		hist = hist[1:]
+	}
+	switch start {
+	case 0: // independent literal, empty array, alias
+		prog = append(prog, model.Var("a", model.Arr(model.Num(1), model.Num(2), model.Num(3))), model.Var("b", model.Arr()), model.Var("c", model.Id("a")))
+	case 1: // an array holding another one, and the result of an append
+		prog = append(prog, model.Var("b", model.Arr(model.Num(7), model.Num(8))), model.Var("a", model.Arr(model.Id("b"), model.Num(2))), model.Var("c", model.CallN(model.BiAppend, model.Id("a"), model.Num(9))))
+	case 2: // results of remove and append of one ancestor
+		prog = append(prog, model.Var("a", model.Arr(model.Num(1), model.Num(2), model.Num(3), model.Num(4))), model.Var("b", model.CallN(model.BiRemove, model.Id("a"), model.Num(3))), model.Var("c", model.CallN(model.BiAppend, model.Id("b"), model.Num(5))))
 	}
 	for i, o := range hist {
 		K := float64(100 * (i + 1))
@@ -208,21 +221,13 @@ func C11(c *fw.Ctx) {
 		var next []node
 		for _, nd := range frontier {
 			for oi := range ops {
-				if d == 0 && oi > 0 {
-					break // root: only the empty history
+				if d == 0 && oi >= arrStartCount {
+					break // roots: the start states
 				}
-				var hist []int
-				if d == 0 {
-					hist = nil
-				} else {
-					hist = append(append([]int{}, nd.hist...), oi)
-				}
-				// subtrees are distributed over shards by their first operation
-				if d >= 1 && hist[0]%c.NShards != c.Shard {
+				hist := append(append([]int{}, nd.hist...), oi)
+				// subtrees are distributed over shards by start state and first operation
+				if d >= 1 && (hist[0]*len(ops)+hist[1])%c.NShards != c.Shard {
 					continue
-				}
-				if d == 0 && c.Shard != 0 {
-					// every shard needs the root to expand, but only shard 0 counts it
 				}
 				prog := parenAll(arrProgram(hist, ops))
 				src := model.Render(prog)
@@ -260,7 +265,7 @@ func C11(c *fw.Ctx) {
 					c.Violate(r)
 				}
 				lastOp := "start"
-				if len(hist) > 0 {
+				if len(hist) > 1 {
 					lastOp = ops[hist[len(hist)-1]].Name
 				}
 				if why := model.CompareStdout(res, o.Stdout); why != "" {
@@ -278,7 +283,7 @@ func C11(c *fw.Ctx) {
 					c.Count("error_leaves")
 					continue // leaf
 				}
-				if len(hist) > 0 && ops[hist[len(hist)-1]].Leaf {
+				if len(hist) > 1 && ops[hist[len(hist)-1]].Leaf {
 					continue
 				}
 				// canonical key: model heap + implementation fingerprint
@@ -328,7 +333,11 @@ func C11(c *fw.Ctx) {
 
 func histNames(hist []int, ops []arrOp) string {
 	var s []string
-	for _, o := range hist {
+	for i, o := range hist {
+		if i == 0 {
+			s = append(s, fmt.Sprintf("start%d", o))
+			continue
+		}
 		s = append(s, ops[o].Name)
 	}
 	return strings.Join(s, " ; ")
